@@ -1,19 +1,40 @@
-import FstVerif.Model.Reader
+import FstVerif.Proofs.Open
 /-
 C10 — version / length gate of `Fst::new` and `verify` on old versions.
-(The read-side theorems for versions 1 and 2 are assembled from Proofs/Codec.lean.)
+Statements only; proofs in Proofs/Open.lean. (The read-side theorems for
+versions 1 and 2 are assembled from Proofs/Codec.lean, see C10_read below when present.)
 -/
-namespace Fst
+namespace Fst.Props
+open Fst Fst.OpenProofs
 
 /-- inputs shorter than 32 bytes are rejected with a Format error, whatever they contain -/
-theorem C10_short (d : Src) (h : d.size < 32) : fstNew d = .err (.format d.size) := by
-  simp [fstNew, h]
+theorem C10_short (bs : List UInt8) (h : bs.length < 32) :
+    fstNew (Src.ofList bs) = .err (.format bs.length) := OpenProofs.C10_short bs h
 
-/-- versions without a checksum report ChecksumMissing -/
-theorem C10_checksum_missing (m : Meta) (d : Src) (h : m.checksum = none) :
-    fstVerify m d = .err .checksumMissing := by
-  simp [fstVerify, h]
+/-- version 0 or a version newer than supported is rejected with a Version error
+(once the input is long enough to be any FST at all) -/
+theorem C10_version_gate (bs : List UInt8) (h : 32 ≤ bs.length)
+    (hv : versionOf bs = 0 ∨ versionOf bs > 3) :
+    fstNew (Src.ofList bs) = .err (.version 3 (versionOf bs)) := by
+  have := OpenProofs.C10_version bs h (by rw [version_pinned]; exact hv)
+  rwa [version_pinned] at this
 
-example : fstNew (Src.ofList (List.replicate 31 0)) = .err (.format 31) := by decide
+/-- a version-3 input shorter than 36 bytes is rejected with a Format error -/
+theorem C10_v3_min_len (bs : List UInt8) (hv : versionOf bs = 3) (h : bs.length < 36) :
+    fstNew (Src.ofList bs) = .err (.format bs.length) := OpenProofs.C10_v3_short bs hv h
 
-end Fst
+/-- `verify()` reports ChecksumMissing for versions that carry no checksum -/
+theorem C10_checksum_missing (bs : List UInt8) (m : Meta)
+    (hm : fstNew (Src.ofList bs) = .ok m) (hv : m.version ≤ 2) :
+    fstVerify m (Src.ofList bs) = .err .checksumMissing := OpenProofs.C10_checksum_missing bs m hm hv
+
+/-- and never for version 3 -/
+theorem C10_v3_has_checksum (bs : List UInt8) (m : Meta)
+    (hm : fstNew (Src.ofList bs) = .ok m) (hv : m.version = 3) :
+    fstVerify m (Src.ofList bs) ≠ .err .checksumMissing := OpenProofs.checksum_present_v3 bs m hm hv
+
+/-- non-vacuity: the 32-byte empty version-2 file opens (the defect fixed in 31cecbb) -/
+example : fstNew (Src.ofList ([2,0,0,0,0,0,0,0] ++ List.replicate 24 0)) =
+    .ok { version := 2, rootAddr := 0, ty := 0, len := 0, checksum := none } := by decide
+
+end Fst.Props
